@@ -458,16 +458,22 @@ def r175(ctx):
     else:
         ctx.ok(rid, a_node, f"loop() runs exactly tsteps - cstep iterations (leaves iff cstep >= tsteps{a:+d} before the increment, goes on iff cstep <= tsteps{b:+d} after it)")
     # scheduler: submission guard inside `while state.loop()`
-    d = None
+    d = wcoef = None
     for w in [x for x in walk_local(sched) if isinstance(x, ast.While) and "loop" in ast.unparse(x.test)]:
         for n in [x for x in ast.walk(w) if isinstance(x, ast.If)]:
             if any(isinstance(c, ast.Call) and last_name(c) in ("submit_work", "prep_md_items") for c in ast.walk(n)):
-                h = _offset(_halfspace(n.test), {"c": -1, "W": -1, "T": 1})
-                if h is not None:
-                    d, d_node = h, n
+                h = _halfspace(n.test)
+                if h is not None and h.get("c") == -1 and h.get("T") == 1 and set(h) <= {"c", "T", "W", 1}:
+                    d, wcoef, d_node = h.get(1, 0), -h.get("W", 0), n
     if d is None:
-        raise AnalysisError("R-17.5: the submission guard of the main loop is not a comparison of cstep + workers with tsteps")
-    if d != 0:
+        raise AnalysisError("R-17.5: the submission guard of the main loop is not a linear comparison of the step counter with tsteps (and workers)")
+    # the guard is evaluated after each of the tsteps - c0 increments, with cstep = c0+1 .. tsteps; it holds
+    # iff cstep <= tsteps + d - wcoef*workers: jobs submitted in the loop = tsteps - c0 + d - wcoef*workers
+    # (for tsteps - c0 >= workers), plus `workers` from the initiation; results consumed = tsteps - c0
+    if wcoef != 1:
+        ctx.bad(rid, d_node, f"the main loop submits a new job iff cstep + {wcoef}*workers <= tsteps + ({d}): over a run, jobs submitted = results consumed + ({d}) + ({1 - wcoef})*workers - the guard does not account for the `workers` jobs already in flight: with 2 or more workers " + ("more jobs are started than results are consumed; the surplus is still in flight when the run ends (moves beyond `steps` run, a finished run's restart file lists jobs in flight)" if (1 - wcoef) > 0 else "fewer jobs are submitted than results are awaited"),
+                construct="submission guard " + short(d_node.test, 50))
+    elif d != 0:
         ctx.bad(rid, d_node, f"the main loop submits a new job iff cstep + workers <= tsteps + ({d}): jobs submitted = results consumed + ({d}) - " + ("a job is still in flight when the run ends (its move is lost, the run does not 'leave no job in flight')" if d > 0 else "the last iteration(s) find no job to wait for: fewer moves than requested complete"), construct="submission guard " + short(d_node.test, 50))
     else:
         ctx.ok(rid, d_node, "jobs submitted = workers + (tsteps - workers - c0) = results consumed: nothing is left in flight and exactly tsteps - c0 moves complete")
@@ -493,6 +499,7 @@ VARIANTS = [
     B("c17-locked-stored-inside-loop", REPEX, '        self.config["current"]["locked"] = locked_ep\n', '            self.config["current"]["locked"] = locked_ep\n', "R-17.6", control=True, why="seeded C17_d"),
     K("c17-keep-locked-comprehension", REPEX, '        locked_ep = []\n        for tup in self.locked:\n            locked_ep.append(\n                ([int(tup0 + self._offset) for tup0 in tup[0]], tup[1])\n            )\n        self.config["current"]["locked"] = locked_ep\n', '        self.config["current"]["locked"] = [([int(tup0 + self._offset) for tup0 in tup[0]], tup[1]) for tup in self.locked]\n'),
     B("c17-submit-guard-strict", SCHED, "        if state.cstep + state.workers <= state.tsteps:", "        if state.cstep + state.workers < state.tsteps:", "R-17.5", control=True),
+    B("c17-submit-guard-ignores-workers", SCHED, "        if state.cstep + state.workers <= state.tsteps:", "        if state.cstep < state.tsteps:", "R-17.5", why="seeded C17_f"),
     B("c17-submit-guard-loose", SCHED, "        if state.cstep + state.workers <= state.tsteps:", "        if state.cstep + state.workers <= state.tsteps + 1:", "R-17.5"),
     B("c17-submit-guard-ignores-workers-offset", SCHED, "        if state.cstep + state.workers <= state.tsteps:", "        if state.cstep + state.workers - 1 <= state.tsteps:", "R-17.5"),
     B("c17-loop-return-strict", REPEX, "        return self.cstep <= self.tsteps\n", "        return self.cstep < self.tsteps\n", "R-17.5"),
